@@ -460,6 +460,7 @@ func (e *effEngine) RunResetOrder(r *Report) {
 		for _, fn := range e.p.FuncsMatching(pat) {
 			var resetBlk, runBlk *ssa.BasicBlock
 			var resetPos, runPos token.Pos
+			viaHelper := false
 			for _, b := range fn.Blocks {
 				for _, ins := range b.Instrs {
 					c, ok := ins.(*ssa.Call)
@@ -469,6 +470,10 @@ func (e *effEngine) RunResetOrder(r *Report) {
 					n := CalleeName(&c.Call)
 					if strings.HasPrefix(n, "invoke:") && strings.HasSuffix(n, ".Reset") && strings.Contains(n, "BlueprintStateful") {
 						resetBlk, resetPos = b, ins.Pos()
+					} else if cal := c.Call.StaticCallee(); cal != nil && FuncPkg(cal) != nil && FuncPkg(cal).Path() == FuncPkg(fn).Path() && containsStatefulReset(cal, 0) {
+						// the reset loop extracted into a helper of the same package: the helper call is the site
+						resetBlk, resetPos = b, ins.Pos()
+						viaHelper = true
 					}
 					if strings.HasSuffix(n, ".(*solver).run") {
 						runBlk, runPos = b, ins.Pos()
@@ -483,12 +488,17 @@ func (e *effEngine) RunResetOrder(r *Report) {
 			fromReset := reach(resetBlk, nil)
 			fromRun := reach(runBlk, nil)
 			// the reset loop header must dominate the run call: every path to run passes the loop
-			loopHeaderDominates := false
-			for d := resetBlk; d != nil; d = d.Idom() {
+			loopHeaderDominates := viaHelper && (resetBlk == runBlk || resetBlk.Dominates(runBlk))
+			for d := resetBlk; d != nil && !viaHelper; d = d.Idom() {
 				if d.Dominates(runBlk) && d != runBlk {
 					loopHeaderDominates = true
 					break
 				}
+			}
+			if viaHelper && resetBlk == runBlk {
+				// same block: the helper call must come first
+				fromReset[runBlk] = resetPos < runPos
+				fromRun[resetBlk] = false
 			}
 			if fromReset[runBlk] && !fromRun[resetBlk] && loopHeaderDominates {
 				r.Pass("EFF-RESET", pkg, FuncName(fn), "reset-before-run", e.p.Pos(resetPos), "blueprint Reset loop precedes solver.run on every path (run at "+e.p.Pos(runPos)+")", true)
@@ -677,4 +687,27 @@ func RunDoubleChecked(p *Prog, r *Report, scope func(pkg string) bool) {
 		}
 	}
 	r.Extra["lock_sites_checked"] = n
+}
+
+// containsStatefulReset: fn (or a same-package callee, two levels) invokes BlueprintStateful.Reset.
+func containsStatefulReset(fn *ssa.Function, depth int) bool {
+	if fn.Blocks == nil || depth > 2 {
+		return false
+	}
+	for _, b := range fn.Blocks {
+		for _, ins := range b.Instrs {
+			c, ok := ins.(*ssa.Call)
+			if !ok {
+				continue
+			}
+			n := CalleeName(&c.Call)
+			if strings.HasPrefix(n, "invoke:") && strings.HasSuffix(n, ".Reset") && strings.Contains(n, "BlueprintStateful") {
+				return true
+			}
+			if cal := c.Call.StaticCallee(); cal != nil && FuncPkg(cal) != nil && FuncPkg(fn) != nil && FuncPkg(cal).Path() == FuncPkg(fn).Path() && containsStatefulReset(cal, depth+1) {
+				return true
+			}
+		}
+	}
+	return false
 }
